@@ -194,6 +194,38 @@ def sync_case(part, item):
     part.seen('nontrivial', ('sync', item))
 
 
+def long_case(part, n):
+    """One long history: n completed calls under one name (plus a second
+    function); every sample must stay in the record until clear_trace."""
+    tr, clock, log, fns = build()
+    tr.clear_trace()
+    durs = []
+    for i in range(n):
+        d = (1 + i % 7) / 8.0          # dyadic: sums are exact
+        fns['f1'](d)
+        durs.append(d)
+        if i % 997 == 0:
+            fns['f2'](0.5)
+        part.count('transitions')
+    det = {'long': n}
+    for avg in (True, False):
+        for mh in (None, 1, 1000, 1024, 1025, 4096, 4097, 65536, 65537,
+                   n - 1, n, n + 1):
+            if mh is not None and mh <= 0:
+                continue
+            part.count('evaluations')
+            got = tr.get_trace(average=avg, max_history=mh).get('alpha')
+            w = durs if mh is None else durs[-mh:]
+            exp = sum(w) / len(w) if avg else sum(w)
+            if got != exp:
+                part.violation(
+                    f"stats:{'mean' if avg else 'sum'}:long",
+                    f'after {n} completed calls get_trace(average={avg}, '
+                    f'max_history={mh}) = {got} expected {exp}', det)
+                return
+    part.seen('nontrivial', ('long', n))
+
+
 def main(run: core.Run):
     thorough = run.tier == 'thorough'
     depth = 7 if thorough else 6
@@ -201,6 +233,8 @@ def main(run: core.Run):
         if thorough else [((a, b), depth) for a in OPS for b in OPS]
     core.pmap(run, prefix_case, items, chunk=1)
     core.pmap(run, sync_case, list(simdist.FIXED_SCHEDULES), procs=1)
+    core.pmap(run, long_case, [1500, 5000] + ([70000, 300000] if thorough
+                                              else []), chunk=1)
     run.c['distinct_nontrivial'] = len(run.distinct.get('nontrivial', ()))
     run.rule = (
         f'every history of length <= {depth} over the 8-operation alphabet '
@@ -210,7 +244,8 @@ def main(run: core.Run):
         'operation all 8 get_trace(average, max_history in {None,1,2,3}) '
         'queries are compared with a list/dict reference under an injected '
         'clock (exact equality); one sync=True program in a simulated world '
-        'of 2 under 4 schedules; non-trivial = histories with >=2 recorded '
+        'of 2 under 4 schedules; long histories (1500 and 5000 calls; thorough '
+        'up to 300000) with windows around 1024/4096/65536; non-trivial = histories with >=2 recorded '
         'samples')
     run.sample({'history': [list(o) for o in (OPS[0], OPS[3], OPS[4],
                                               OPS[2], OPS[6])]})
@@ -224,6 +259,8 @@ def replay(run, data):
     part = core.Part()
     if 'sync' in d:
         sync_case(part, d['sync'])
+    elif 'long' in d:
+        long_case(part, d['long'])
     else:
         run_history(part, tuple(tuple(o) for o in d['history']))
     run.merge(part.dump())
